@@ -163,6 +163,20 @@ func main() {
 		name := fmt.Sprintf("lookup%04d", i)
 		progs = append(progs, &detProg{name: name, class: "lookup", src: src, labels: true, path: writeProg("lookup", name, src)})
 	}
+	nIdent := e.Pick(8, 60)
+	ri := e.Rand("identity")
+	for i := 0; i < nIdent; i++ {
+		src := genIdentityProgram(ri, i%4 == 0)
+		name := fmt.Sprintf("identity%04d", i)
+		progs = append(progs, &detProg{name: name, class: "identity", src: src, labels: true, path: writeProg("identity", name, src)})
+	}
+	nDiag := e.Pick(10, 80)
+	rd := e.Rand("diag")
+	for i := 0; i < nDiag; i++ {
+		src := genDiagProgram(rd, i%2 == 1)
+		name := fmt.Sprintf("diag%04d", i)
+		progs = append(progs, &detProg{name: name, class: "diag", src: src, labels: true, path: writeProg("diag", name, src)})
+	}
 	incPath := writeProg("state", "c20_inc", incFileSource)
 	mods := stateModules(incPath)
 	rs := e.Rand("state")
@@ -438,37 +452,59 @@ func reportNondet(p *detProg, outs []runOut, unstableStore map[int]bool, unstabl
 				unstableLabel[id] = true
 			}
 			if p.order != nil {
-				for _, id := range ids {
-					var bi int
-					var rest string
-					if n, _ := fmt.Sscanf(id, "%d.%s", &bi, &rest); n == 2 && strings.HasPrefix(rest, "canary") {
-						unstableStore[bi] = true
+				reported := false
+				for _, b := range p.order.blocks {
+					pre := fmt.Sprintf("%d.", b.idx)
+					// group the result variants by what the store itself enumerated (all canaries
+					// of the block); sinks are compared only between runs that saw the same store
+					groups := map[string][]int{}
+					var sigs []string
+					for i, m := range per {
+						var sb strings.Builder
+						var cids []string
+						for id := range m {
+							if strings.HasPrefix(id, pre+"canary") {
+								cids = append(cids, id)
+							}
+						}
+						sort.Strings(cids)
+						for _, id := range cids {
+							sb.WriteString(id + "=" + m[id] + "\x00")
+						}
+						sig := sb.String()
+						if _, ok := groups[sig]; !ok {
+							sigs = append(sigs, sig)
+						}
+						groups[sig] = append(groups[sig], i)
+					}
+					if len(groups) > 1 {
+						unstableStore[b.idx] = true
+						reported = true
+						i0, i1 := groups[sigs[0]][0], groups[sigs[1]][0]
+						cl := pre + "canary"
+						w := describe(fmt.Sprintf("the container itself (kind %s, block %d) is enumerated by plain foreach in different orders: %q vs %q", b.kind, b.idx,
+							clip(per[i0][cl], 300), clip(per[i1][cl], 300)))
+						env.Violation("nondet:store:"+b.kind, w, "php", replay(w))
+					}
+					for _, sn := range b.sinks {
+						id := pre + sn
+						for _, sig := range sigs {
+							g := groups[sig]
+							for _, i := range g[1:] {
+								if per[i][id] != per[g[0]][id] && !unstableLabel[id+"#r"] {
+									unstableLabel[id+"#r"] = true
+									reported = true
+									w := describe(fmt.Sprintf("sink %s on a container of kind %s (label %s) prints different results for the same store order: %q vs %q", sn, b.kind, id,
+										clip(per[g[0]][id], 300), clip(per[i][id], 300)))
+									env.Violation("nondet:"+sn+":"+family(b.kind), w, "php", replay(w))
+								}
+							}
+						}
 					}
 				}
-				done := map[string]bool{}
-				for _, id := range ids {
-					var bi int
-					var sink string
-					if n, _ := fmt.Sscanf(id, "%d.%s", &bi, &sink); n != 2 || bi >= len(p.order.blocks) {
-						continue
-					}
-					kind := p.order.blocks[bi].kind
-					var key string
-					if unstableStore[bi] {
-						// everything printed from an unstable store differs; it is the store's defect
-						key = "nondet:store:" + kind
-					} else {
-						key = "nondet:" + sink + ":" + family(kind)
-					}
-					if done[key] {
-						continue
-					}
-					done[key] = true
-					w := describe(fmt.Sprintf("first unstable observation: label %s (container kind %s): %q vs %q", id, kind,
-						clip(per[0][id], 300), clip(otherPayload(per, id), 300)))
-					env.Violation(key, w, "php", replay(w))
+				if reported {
+					return
 				}
-				return
 			}
 			// state and lookup programs: one key per observation channel (the label without the
 			// group suffix .g<n> of lookup programs)
@@ -512,8 +548,14 @@ func reportNondet(p *detProg, outs []runOut, unstableStore map[int]bool, unstabl
 		w := describe(what)
 		env.Violation("nondet:gen:"+lib.Hash(src), w, "php", []byte(src+"\n/* ---- verif C20 determinism (minimised generated program) ----\n"+w+"\n*/\n"))
 	default:
+		where := "stderr"
+		if a.exit != b.exit || a.sig != b.sig {
+			where = "exit-status"
+		} else if a.stdout != b.stdout {
+			where = "stdout-outside-labels"
+		}
 		w := describe(what)
-		env.Violation("nondet:"+p.class+":unlabelled:"+lib.Hash(p.src), w, "php", replay(w))
+		env.Violation("nondet:"+p.class+":"+where, w, "php", replay(w))
 	}
 }
 
